@@ -229,6 +229,46 @@ def main(args):
                     recs.append(rec)
                     real[rid] = {"draft": d, "schema": S, "schema_with_foreign": S2, "instance": I, "errors_before": plain}
                     ck.count((d, repr(S), repr(S2), repr(I)), bool(plain))
+    # the other drafts' id keyword (or an annotation holding a mapping with an id) naming an absolute URI that a reference
+    # elsewhere uses and the caller's store serves: the reference keeps designating the stored document
+    U = "http://x.invalid/u.json"
+    for d in DRAFTS:
+        other_id = "$id" if d <= 4 else "id"
+        S = {"properties": {"p": {"$ref": U}, "q": {"type": "integer"}}, "definitions": {"other": {"minimum": 3}}}
+
+        def resolver_for(schema, d=d):
+            return __import__("jsonschema").RefResolver.from_schema(schema, id_of=_cls()[d].ID_OF, store={U: {"type": "string"}})
+        alts = [insert_at(S, ("properties", "q"), other_id, U), insert_at(S, ("definitions", "other"), other_id, U),
+                insert_at(S, (), "default", {"$id": U, "id": U, "type": "integer"}),
+                insert_at(S, ("properties", "q"), "examples", [{"$id": U, "id": U, "type": "null"}])]
+        for S2 in alts:
+            for I in ({"p": 1, "q": "x"}, {"p": "s", "q": 1}):
+                rid += 1
+                try:
+                    rec, plain = errrec.make_record(rid, d, _cls()[d], S, I, alt=S2, resolver_for=resolver_for)
+                except Exception as e:  # noqa
+                    ck.violation("foreign_keyword_makes_validation_raise", {"draft": d, "schema": S, "schema_with_foreign": S2,
+                                                                            "instance": I, "exception": "%s: %s" % (type(e).__name__, str(e)[:100])})
+                    continue
+                from harness.encode import enc, enc_str
+                rec["more"] = [{"u": enc_str(U), "doc": enc({"type": "string"})}]
+                recs.append(rec)
+                real[rid] = {"draft": d, "schema": S, "schema_with_foreign": S2, "store": {U: {"type": "string"}}, "instance": I, "errors_before": plain}
+                ck.count((d, repr(S2), repr(I), "store"), bool(plain))
+    # keywords next to $ref are ignored by every validator class, also one obtained from extend()
+    import jsonschema.validators as V
+    for d in DRAFTS:
+        base, ext = _cls()[d], V.extend(_cls()[d])
+        for sib in ({"type": "integer"}, {"enum": [1]}, {"minimum": 10}, ({"disallow": "any"} if d == 3 else {"not": {}})):
+            S = {"properties": {"p": dict({"$ref": "#/definitions/s"}, **sib)}, "definitions": {"s": {"type": "string"}}}
+            for I in ({"p": "x"}, {"p": 1}, {"p": 20}):
+                a = outcome_of(lambda: sorted(errrec.canon_obs(errrec.obs_err(e)) for e in base(S).iter_errors(I)))
+                b = outcome_of(lambda: sorted(errrec.canon_obs(errrec.obs_err(e)) for e in ext(S).iter_errors(I)))
+                ck.count((d, repr(S), repr(I), "extended"), True)
+                if a != b:
+                    ck.violation("foreign_changes_errors", {"draft": d, "schema": S, "instance": I, "class": "extend(Draft%dValidator)" % d,
+                                                            "observed_errors": repr(b)[:300], "errors_before": repr(a)[:300],
+                                                            "note": "keywords next to $ref must stay inert for classes obtained from extend()"})
     # the other drafts' identifier keyword at the root of a RETRIEVED document: it names nothing there either
     import copy
     from harness import tracing
